@@ -1861,6 +1861,7 @@ pub fn drive(tier_name: &str, seed: u64, workers: usize) -> i32 {
     let mut switches_by_site = vec![0u64; sched::MAX_SITES];
     let mut aborts_by_site = vec![0u64; sched::MAX_SITES];
     let mut faults_planned = 0u64;
+    let mut deep_ops = 0u64;
     let mut faults_fired = 0u64;
     let mut sigs: BTreeSet<u64> = BTreeSet::new();
     let mut nontrivial_runs = 0u64;
@@ -1954,6 +1955,7 @@ pub fn drive(tier_name: &str, seed: u64, workers: usize) -> i32 {
                 aborts_by_site[s] += r.sched.aborts_fired_by_site.get(s).copied().unwrap_or(0);
             }
             faults_planned += plan.faults.len() as u64;
+            deep_ops += plan.deep_stack.len() as u64;
             faults_fired += r.sched.faults_fired.len() as u64;
             if plan.clients.len() >= 2 && r.sched.intra_op_switches >= 1 {
                 nontrivial_runs += 1;
@@ -2152,7 +2154,13 @@ pub fn drive(tier_name: &str, seed: u64, workers: usize) -> i32 {
         "context_switches_inside_an_operation": agg_intra,
         "yields_by_site": named(&yields_by_site),
         "switches_by_site": named(&switches_by_site),
-        "faults": {"kind": "client abort (caller thread unwinds out of the library at a schedule point)", "planned": faults_planned, "fired": faults_fired, "fired_by_site": named(&aborts_by_site)},
+        "faults": {
+            "client_abort": {"what": "a caller thread unwinds out of the library at a schedule point", "planned": faults_planned, "fired": faults_fired, "fired_by_site": named(&aborts_by_site)},
+            "clock_jump": {"what": "the run process' clock (behind the LD_PRELOAD seam) advances by 1 s to 1 year at a schedule point inside an operation", "fired": probes_sum.get("clock_jumps_fired").copied().unwrap_or(0), "runs_with_the_seam": probes_sum.get("runs_with_the_clock_seam_preloaded").copied().unwrap_or(0), "clock_reads_by_the_run_processes": probes_sum.get("clock_reads_by_the_run_processes").copied().unwrap_or(0)},
+            "deep_caller_stack": {"what": "an operation is executed 0.25-3 MiB deeper in the caller's stack", "operations": deep_ops},
+            "document_dropped_and_rebuilt": {"rebuilds": probes_sum.get("doc_rebuilds").copied().unwrap_or(0), "at_the_same_address": probes_sum.get("doc_rebuilt_at_same_address").copied().unwrap_or(0)},
+            "not_applicable": "network, disk, allocation failure: the library has no such surface"
+        },
         "policies": policies,
         "document_representation": reprs,
         "clients_per_run": clients_hist,
